@@ -159,15 +159,18 @@ class GAF:
 
         # Check if there are additional tags
         tags = {}
-        for k in fields:
-            if re.match("[A-Za-z][A-Za-z0-9]:[AifZHB]:[A-Za-z0-9]+", k):
-                pattern = re.findall(r"([A-Za-z][A-Za-z0-9]:[AifZHB]:)[A-Za-z0-9]+", k)[0]
+        for k in fields[12:]:
+            # an optional field is TAG:TYPE:VALUE and the value is everything after the second colon
+            if re.match("[A-Za-z][A-Za-z0-9]:[AifZHB]:", k):
+                pattern = k[:5]
+                val = k[5:]
+                if pattern == "ds:Z:":
+                    # the ds tag is not supported and is not carried over (see the user guide)
+                    continue
                 if pattern == "cg:Z:":
-                    val = re.findall(r"[A-Za-z][A-Za-z0-9]:[AifZHB]:([A-Za-z0-9=]+)", k)[0]
                     cigar = val
                     tags[pattern] = val
                 else:
-                    val = re.findall(r"[A-Za-z][A-Za-z0-9]:[AifZHB]:([A-Za-z0-9.]+)", k)[0]
                     if pattern not in tags:
                         tags[pattern] = val
 
